@@ -8,5 +8,5 @@
 //@pinfile file=lrtable/src/lib/pager.rs sha=2691abd40282da88
 //@pinfile file=lrtable/src/lib/stategraph.rs sha=9ccc3fac48635c00
 //@pinfile file=lrtable/src/lib/statetable.rs sha=d87829631c7b15fa
-//@pinfile file=lrlex/src/lib/parser.rs sha=de9518e2e28f9549
+//@pinfile file=lrlex/src/lib/parser.rs sha=ee184a9fe8ea3991
 //@use prelude/tail.rs
